@@ -18,6 +18,9 @@ Tie to the source:
       written down directly, exact Fractions while the math is rational) judges the PROPERTY on what
       mxlpy.sbml.read returned: initial values, rule-defined values and species derivatives at 3
       states, identifier mapping, non-interference of two documents read in one session.
+Round-3 closing: facts3 (prefix rule of valid_filename, printing of equalities, body of a generated def) -> gen_facts3;
+streams of harness/c17_close3.py (eq / neq conditions at near-equal states, guarded singular terms on the guard, sessions
+of documents under module-named file stems in a subprocess: harness/c17_session.py).
 """
 
 from __future__ import annotations
@@ -32,6 +35,7 @@ from fractions import Fraction
 from pathlib import Path
 from typing import Any
 
+from harness import c17_close3 as C3
 from harness import c17_gen as G
 from harness import c17_impl as I  # noqa: E741
 from harness import c17_sbml as S
@@ -179,6 +183,9 @@ def extract_facts() -> dict[str, Any]:  # noqa: C901, PLR0912, PLR0915
         "lit_var": "LitUnknown",
         "lit_par": "LitUnknown",
         "lit_stoich": "LitUnknown",
+        "prefix_rule": "PrefixUnknown",
+        "eq_print": "EqUnknown",
+        "body": "BodyUnknown",
         "shapes": {},
     }
     shapes: dict[str, bool] = facts["shapes"]
@@ -370,6 +377,7 @@ def extract_facts() -> dict[str, Any]:  # noqa: C901, PLR0912, PLR0915
             facts["register"] = "RegFresh"
             shapes["generate"] = True
     _extract_facts2(facts, imp, cg, st)
+    _extract_facts3(facts, imp, st)
     return facts
 
 
@@ -448,6 +456,57 @@ def _extract_facts2(facts: dict[str, Any], imp: ast.Module, cg: ast.Module, st: 
                     facts["lit_stoich"] = "LitSympy15"
 
 
+# the seeded shapes C17-7..9 (recognised so that the Coq variant of each step can be named; anything else: *Unknown)
+_VF_HEAD = _SHAPES["valid_filename"].rsplit("\n", 1)[0]
+_VF_UNLESS_IDENT = "if value.isidentifier() and (not keyword.iskeyword(value)):\n    return value"
+_FN_ARGS = "fn_args = ', '.join((f'{i}: float' for i in args))"
+_PRINTER_CLASS = (
+    "def _print_Equality(self, expr: sympy.Eq) -> str:\n    lhs, rhs = (self._print(i) for i in expr.args)\n"
+    "    return f'{self._module_format('math.isclose')}({lhs}, {rhs})'\n"
+    "def _print_Unequality(self, expr: sympy.Ne) -> str:\n    lhs, rhs = (self._print(i) for i in expr.args)\n"
+    "    return f'(not {self._module_format('math.isclose')}({lhs}, {rhs}))'"
+)
+_ISCLOSE_BODY = (
+    _FN_ARGS + "\nprinter = _FnBodyPrinter({'fully_qualified_modules': True, 'full_prec': False})\n"
+    "return f'def {fn_name}({fn_args}) -> float:\\n    return {printer.doprint(expr)}\\n    '.replace('math.factorial', 'scipy.special.factorial')"
+)
+_CSE_BODY = (
+    _FN_ARGS + "\ntaken = {sympy.Symbol(i) for i in args} | expr.free_symbols\n"
+    "temporaries, (expr,) = sympy.cse(expr, symbols=sympy.numbered_symbols('_t', exclude=taken))\n"
+    "body = ''.join((f'    {name} = {pycode(sub, fully_qualified_modules=True, full_prec=False)}\\n' for name, sub in temporaries))\n"
+    "return f'def {fn_name}({fn_args}) -> float:\\n{body}    return {pycode(expr, fully_qualified_modules=True, full_prec=False)}\\n    '"
+    ".replace('math.factorial', 'scipy.special.factorial')"
+)
+
+
+def _extract_facts3(facts: dict[str, Any], imp: ast.Module, st: ast.Module) -> None:
+    """the three facts of coq/sbmlimp/SbmlClose3.v (fail-closed)"""
+    f = _fn(imp, "valid_filename")
+    if f is not None:
+        b = _body(f)
+        if b and isinstance(b[-1], ast.Return) and (j := _joined(b[-1].value)) is not None and len(j) == 2 and j[1] == "{value}":
+            head = _norm(b[:-1])
+            if head == _VF_HEAD:
+                facts["prefix_rule"] = "PrefixAlways"
+            elif head == _VF_HEAD + "\n" + _VF_UNLESS_IDENT:
+                facts["prefix_rule"] = "PrefixUnlessIdentifier"
+    f = _fn(st, "sympy_to_python_fn")
+    if f is not None:
+        body = _norm(_body(f))
+        if body == _SHAPES["sympy_to_python_fn"]:
+            facts["eq_print"], facts["body"] = "EqExact", "BodyExpr"
+        elif body == _CSE_BODY:
+            facts["eq_print"], facts["body"] = "EqExact", "BodyCse"
+        elif body == _ISCLOSE_BODY:
+            cls = next((n for n in st.body if isinstance(n, ast.ClassDef) and n.name == "_FnBodyPrinter"), None)
+            if (
+                cls is not None
+                and [ast.unparse(x) for x in cls.bases] == ["PythonCodePrinter"]
+                and _norm([x for x in cls.body if not (isinstance(x, ast.Expr) and isinstance(x.value, ast.Constant))]) == _PRINTER_CLASS
+            ):
+                facts["eq_print"], facts["body"] = "EqIsClose", "BodyExpr"
+
+
 def gen() -> dict[str, Any]:
     f = extract_facts()
     secs = f["sections"]
@@ -455,13 +514,15 @@ def gen() -> dict[str, Any]:
         "(* REGENERATED from src/mxlpy/sbml/_import.py, src/mxlpy/meta/codegen_mxlpy.py and\n"
         "   src/mxlpy/meta/sympy_tools.py by harness/c17.py; do not edit.  An unrecognised shape yields an\n"
         "   *Unknown constructor / empty string / false, which breaks C17_facts_pinned. *)\n"
-        "From Coq Require Import String List.\nFrom SbmlImp Require Import SbmlImport SbmlVariants.\nImport ListNotations.\nOpen Scope string_scope.\n"
+        "From Coq Require Import String List.\nFrom SbmlImp Require Import SbmlImport SbmlVariants SbmlClose3.\nImport ListNotations.\nOpen Scope string_scope.\n"
         "Definition gen_facts : facts :=\n"
         f"  mkFacts {cstr(f['init_prefix'] or '')} {cstr(f['stoich_infix'] or '')} {f['stoich_key']} "
         f"{clist(secs) if secs else '[]'} {f['ia_order']} {f['module_name']} {cstr(f['file_prefix'] or '')} {f['register']} "
         f"{cbool(all(f['shapes'].values()) and len(f['shapes']) == 10)}.\n"
         "Definition gen_facts2 : facts2 :=\n"
         f"  mkFacts2 {f['rxn_filter']} {f['math_ref']} {f['lit_var']} {f['lit_par']} {f['lit_stoich']}.\n"
+        "Definition gen_facts3 : facts3 :=\n"
+        f"  mkFacts3 {f['prefix_rule']} {f['eq_print']} {f['body']}.\n"
     )
     common.write_if_changed(common.area_dir(AREA) / "GenSbmlFacts.v", text)
     return f
@@ -733,6 +794,9 @@ WITNESS_TMS = [
     ("w_idle", lambda: dict(T.fixed_documents())["idle_reaction_unread"]),
     ("w_precise", lambda: dict(T.fixed_documents())["coefficients_needing_17_digits"]),
     ("w_mathids", lambda: dict(T.fixed_documents())["math_ids_as_arguments"]),
+    # coq/sbmlimp/SbmlWitness3.v (seeded shapes C17-8 / C17-9)
+    ("w_eqcond", lambda: {n: d for n, d, _ in C3.fixed_documents3()}["eq_neq_conditions"]),
+    ("w_guarded", lambda: {n: d for n, d, _ in C3.fixed_documents3()}["guarded_inverse_twice"]),
 ]
 
 
@@ -887,7 +951,7 @@ def corr_file(cases: list[str], stems: list[tuple[str, str]], pairs: list[str], 
     body = ";\n  ".join(cases)
     return (
         "From Coq Require Import String List ZArith QArith Bool.\nFrom MxlBase Require Import ListX.\n"
-        "From SbmlImp Require Import SbmlExpr SbmlImport SbmlRun SbmlSpec SbmlProofs SbmlWitness SbmlVariants SbmlWitness2 GenSbmlFacts.\nImport ListNotations.\nOpen Scope string_scope.\n"
+        "From SbmlImp Require Import SbmlExpr SbmlImport SbmlRun SbmlSpec SbmlProofs SbmlWitness SbmlVariants SbmlWitness2 SbmlClose3 SbmlWitness3 GenSbmlFacts.\nImport ListNotations.\nOpen Scope string_scope.\n"
         "Definition cases : list case := [\n  " + body + "\n].\n"
         "Definition guards : list bool := " + clist(cbool(g) for g in guards) + ".\n"
         "Definition guard_mismatches := filter_idx (fun p => negb (Bool.eqb (nodup_strb (fn_keys gen_facts fsyms (c_tm (fst p)))) (snd p))) (combine cases guards).\n"
@@ -895,8 +959,8 @@ def corr_file(cases: list[str], stems: list[tuple[str, str]], pairs: list[str], 
         "Definition witness_mismatches := filter_idx (fun p => negb (tmodel_eqb (fst p) (snd p))) witnesses.\n"
         "Definition stems : list (string * string) := " + clist(f"({cstr(a)}, {cstr(b)})" for a, b in stems) + ".\n"
         "Definition pairs : list (option bool * option bool) := " + clist(pairs) + ".\n"
-        "Definition mismatches := filter_idx (fun c => negb (case_ok2 gen_facts2 gen_facts c)) cases.\n"
-        "Definition stem_mismatches := filter_idx (fun p => negb (String.eqb (valid_filename gen_facts (fst p)) (snd p))) stems.\n"
+        "Definition mismatches := filter_idx (fun c => negb (case_ok3 gen_facts3 gen_facts2 gen_facts c)) cases.\n"
+        "Definition stem_mismatches := filter_idx (fun p => negb (String.eqb (module_name3 gen_facts3 gen_facts (fst p)) (snd p))) stems.\n"
         "Definition pair_mismatches := filter_idx (fun p => match fst p, snd p with Some a, Some b => negb (Bool.eqb a b) | _, _ => true end) pairs.\n"
         "Eval vm_compute in mismatches.\nEval vm_compute in stem_mismatches.\nEval vm_compute in pair_mismatches.\n"
         "Eval vm_compute in guard_mismatches.\nEval vm_compute in witness_mismatches.\n"
@@ -966,6 +1030,45 @@ def two_documents(sess: Session, doc1: dict, doc2: dict, stem1: str, stem2: str,
 
 
 # ---------------------------------------------------------------------------------------
+# sessions of several documents in a process of their own (harness/c17_session.py)
+# ---------------------------------------------------------------------------------------
+
+
+def run_session_subprocess(steps: list[dict], root: Path, tag: str, timeout: float = 400.0) -> dict:
+    import json
+    import subprocess
+    import sys
+
+    inp = root / f"session_{tag}.json"
+    inp.write_text(json.dumps({"steps": steps}))
+    env = dict(os.environ)
+    env["C17_SESSION_ROOT"] = str(root)
+    env["PYTHONDONTWRITEBYTECODE"] = "1"
+    # a cache directory of its own: sessions run in parallel and use the same stems (~/.cache/mxlpy/mb_<stem>.py)
+    home = root / f"home_{tag}"
+    (home / ".cache").mkdir(parents=True, exist_ok=True)
+    env["HOME"] = str(home)
+    try:
+        p = subprocess.run([sys.executable, "-m", "harness.c17_session", str(inp)], cwd=str(common.VERIF), env=env, capture_output=True, text=True, timeout=timeout, check=False)
+        for line in p.stdout.splitlines():
+            if line.startswith("C17SESSION "):
+                return json.loads(line[len("C17SESSION "):])
+        return {"problems": ["the session's process ended without a result: " + (p.stderr or p.stdout)[-300:]], "modules_replaced": [], "per_step": []}
+    except subprocess.TimeoutExpired:
+        return {"problems": [f"the session's process did not finish within {timeout:.0f} s"], "modules_replaced": [], "per_step": []}
+    finally:
+        inp.unlink(missing_ok=True)
+        shutil.rmtree(home, ignore_errors=True)
+
+
+def session_problems(r: dict) -> list[str]:
+    probs = list(r["problems"])
+    if r["modules_replaced"]:
+        probs.append(f"after the session sys.modules{r['modules_replaced']} are no longer the modules they were before the first read")
+    return probs
+
+
+# ---------------------------------------------------------------------------------------
 # the check
 # ---------------------------------------------------------------------------------------
 
@@ -992,7 +1095,13 @@ def check(run: Run) -> None:  # noqa: C901, PLR0912, PLR0915
         "reaction next to another call), reactions that change no variable (no participants / modifiers only / boundary species only; a "
         "third read by other math), numbers needing 16/17 significant digits (coefficients, values; written with their repr); the six "
         "documents of the seeded shapes C17-4..6 first.  The oracle judges initial values, values, species derivatives, the reactions of "
-        "the Model, their rates, the coefficients per state, and bit-for-bit equality of numbers written as plain literals"
+        "the Model, their rates, the coefficients per state, and bit-for-bit equality of numbers written as plain literals; round-3 "
+        "streams with their own states (harness/c17_close3.py): piecewise conditions with MathML eq / neq between non-constant "
+        "quantities at states where the sides are equal, clearly different and different by one part in 2^31 (operands exact in "
+        "binary64); piecewise guards around terms singular on the guard that occur twice in the guarded branch (division, ln, sqrt; "
+        "laws, rules, initial assignments, function definitions), judged on and off the guard; sessions of 3-4 documents with math "
+        "functions read in ONE interpreter (a subprocess per session) under file stems that are module names (math, Math, scipy, "
+        "mxlpy, sympy, os, ...), every document judged when read and again after every later read"
     )
     proofs_ok = run.check_proofs(AREA, PROPS)
     run.assumptions += [
@@ -1007,6 +1116,8 @@ def check(run: Run) -> None:  # noqa: C901, PLR0912, PLR0915
         "valid_filename is modelled on printable-ASCII stems (unicodedata.normalize is not modelled)",
         "capture of a module-level name by a document id is not modelled (only the list of names a generated module needs: needed_names); "
         "numbers inside generated def bodies are printed by sympy with 15 significant digits (validated within the oracle's 1e-9 tolerance only)",
+        "sys.modules is modelled for the three imports of a generated module (math, scipy, mxlpy); the session driver harness/c17_session.py "
+        "(subprocess) watches 33 module names; math.isclose / sympy.cse appear only in regression models of seeded shapes",
     ]
 
     rng = common.rng_for(run.seed, "c17")
@@ -1162,10 +1273,47 @@ def _check_body(run: Run, rng, sess: Session, thorough: bool, proofs_ok: bool) -
         bump(dist, doc["flavour"])
         handle(doc, f"prec{i}", states, expect_finding=False, pool=False)
 
+    # ---- round-3 streams (own rng streams; harness/c17_close3.py) ----------------------------------------
+    # the documents of the seeded shapes C17-8 / C17-9 with the states of their demos
+    for name, doc, states in C3.fixed_documents3():
+        bump(dist, "fixed-seeded-shapes")
+        handle(doc, "fixed_" + name, states, expect_finding=False, pool=False)
+    r_eq = common.rng_for(run.seed, "c17-eq")
+    for i in range(140 if thorough else 28):
+        doc, states = C3.eq_doc(r_eq, C3.EQ_SHAPES[i % len(C3.EQ_SHAPES)])
+        bump(dist, doc["flavour"].rsplit(":", 1)[0] if doc["flavour"].startswith("eq:init") else doc["flavour"])
+        handle(doc, f"eq{i}", states, expect_finding=False, pool=False)
+    r_guard = common.rng_for(run.seed, "c17-guard")
+    for i in range(128 if thorough else 24):
+        doc, states = C3.guard_doc(r_guard, C3.GUARD_SHAPES[i % len(C3.GUARD_SHAPES)])
+        bump(dist, doc["flavour"])
+        handle(doc, f"guard{i}", states, expect_finding=False, pool=False)
+    # sessions of 3-4 documents whose file stems are module names, each in a process of its own
+    r_stem = common.rng_for(run.seed, "c17-stem")
+    sessions = [C3.stem_session(r_stem, first=(i == 0)) for i in range(20 if thorough else 6)]
+    from concurrent.futures import ThreadPoolExecutor
+
+    with ThreadPoolExecutor(max_workers=min(6, common.NCPU)) as ex:
+        sess_res = list(ex.map(lambda p: run_session_subprocess(p[1], sess.root, f"{p[0]:03d}"), enumerate(sessions)))
+    for steps, r in zip(sessions, sess_res, strict=True):
+        run.count_case(("session", repr(steps)))
+        bump(dist, "stem-sessions")
+        for st in steps:
+            bump(dist, "stem-session-documents" + (":module-named-stem" if st["stem"] in C3.MODULE_STEMS else ""))
+        for ps in r["per_step"]:
+            bump(outcomes, "session:" + ps["outcome"])
+        probs = session_problems(r)
+        if probs and n_viol < 6:
+            n_viol += 1
+            run.violation(
+                f"documents read in one session (file stems {[st['stem'] for st in steps]}): {probs[0]}",
+                {"kind": "session", "steps": steps, "problems": probs[:8]},
+            )
+
     # ---- valid_filename -----------------------------------------------------------------
     from mxlpy.sbml._import import valid_filename
 
-    stems = sorted(set(G.STEMS) | {G.gen_stem(rng) for _ in range(600 if thorough else 150)})
+    stems = sorted(set(G.STEMS) | set(C3.MODULE_STEMS) | set(C3.NEUTRAL_STEMS) | {G.gen_stem(rng) for _ in range(600 if thorough else 150)})
     stem_pairs = [(s, valid_filename(s)) for s in stems if all(32 <= ord(c) < 127 for c in s)]
     for s, _ in stem_pairs:
         run.count_case(("stem", s), nontrivial=any(not c.isalnum() for c in s))
@@ -1354,6 +1502,16 @@ def replay(rep: dict) -> int:
                 probs.append("getsource changed although module names differ")
             for p in probs:
                 print("PROBLEM:", p)
+            return 1 if probs else 0
+        if r.get("kind") == "session":
+            res = run_session_subprocess(r["steps"], sess.root, "replay")
+            for ps in res["per_step"]:
+                print(f"{ps['stem']}.xml: {ps['outcome']}", "ok" if not ps["problems"] else "PROBLEM")
+            probs = session_problems(res)
+            for p in probs:
+                print("PROBLEM:", p)
+            if not probs:
+                print("every document of the session reproduces its equations, when read and after every later read")
             return 1 if probs else 0
         if "broken" in r:
             print("nothing concrete to replay; broken obligations/correspondence:", r["broken"])
